@@ -240,7 +240,8 @@ def rule_deep_copy(ctx):
 
 def run(ctx):
     from . import c06
-    c06.rule_index_growth(ctx)           # the restored snapshot is the requested one only if the index holds all of them
+    c06.rule_index_growth(ctx)
+    c06.rule_counter_update(ctx)         # R06.9: the restored snapshot drops arrays that vanished after the first one           # the restored snapshot is the requested one only if the index holds all of them
     rule_pointer_blind(ctx)
     rule_ignore_set(ctx)
     rule_accumulation(ctx)
